@@ -257,3 +257,153 @@ func taggedHash(tag string, vals ...[]byte) []byte {
 	}
 	return h.Sum(nil)
 }
+
+// ---- a tiny affine secp256k1 in math/big, so that inputs (keys, valid signatures) can be prepared WITHOUT calling the library:
+// a driver's first library call can then be of the kind under test ("cold start": a verifier-only process).  Untrusted, like
+// every generator: the specification decides what the library must answer.
+var (
+	bigGx = bi("79be667ef9dcbbac55a06295ce870b07029bfcdb2dce28d959f2815b16f81798")
+	bigGy = bi("483ada7726a3c4655da4fbfc0e1108a8fd17b448a68554199c47d08ffb10d4b8")
+)
+
+// bigECAdd adds affine points (nil = the point at infinity).
+func bigECAdd(a, b *xy) *xy {
+	if a == nil {
+		return b
+	}
+	if b == nil {
+		return a
+	}
+	var lam *big.Int
+	if a.x.Cmp(b.x) == 0 {
+		if new(big.Int).Mod(new(big.Int).Add(a.y, b.y), bigP).Sign() == 0 {
+			return nil
+		}
+		num := new(big.Int).Mul(big.NewInt(3), new(big.Int).Mul(a.x, a.x))
+		den := new(big.Int).ModInverse(new(big.Int).Mod(new(big.Int).Lsh(a.y, 1), bigP), bigP)
+		lam = new(big.Int).Mod(new(big.Int).Mul(num, den), bigP)
+	} else {
+		num := new(big.Int).Sub(b.y, a.y)
+		den := new(big.Int).ModInverse(new(big.Int).Mod(new(big.Int).Sub(b.x, a.x), bigP), bigP)
+		lam = new(big.Int).Mod(new(big.Int).Mul(num, den), bigP)
+	}
+	x3 := new(big.Int).Mod(new(big.Int).Sub(new(big.Int).Sub(new(big.Int).Mul(lam, lam), a.x), b.x), bigP)
+	y3 := new(big.Int).Mod(new(big.Int).Sub(new(big.Int).Mul(lam, new(big.Int).Sub(a.x, x3)), a.y), bigP)
+	return &xy{x3, y3}
+}
+
+// bigECMul is k*p by double-and-add.
+func bigECMul(k *big.Int, p *xy) *xy {
+	var acc *xy
+	for i := k.BitLen() - 1; i >= 0; i-- {
+		acc = bigECAdd(acc, acc)
+		if k.Bit(i) == 1 {
+			acc = bigECAdd(acc, p)
+		}
+	}
+	return acc
+}
+
+// bigECDSA returns a public key (uncompressed bytes), a digest and a valid low-s signature (r, s) computed with math/big only.
+func bigECDSA(r *rand.Rand) (pub []byte, digest []byte, rr, ss *big.Int) {
+	for {
+		d := add(randBig(r, add(bigN, -1)), 1)
+		k := add(randBig(r, add(bigN, -1)), 1)
+		digest = randBytes(r, 32)
+		e := new(big.Int).Mod(new(big.Int).SetBytes(digest), bigN)
+		Q := bigECMul(d, &xy{bigGx, bigGy})
+		R := bigECMul(k, &xy{bigGx, bigGy})
+		rr = new(big.Int).Mod(R.x, bigN)
+		ss = new(big.Int).Mod(new(big.Int).Mul(new(big.Int).ModInverse(k, bigN), new(big.Int).Add(e, new(big.Int).Mul(rr, d))), bigN)
+		if rr.Sign() == 0 || ss.Sign() == 0 {
+			continue
+		}
+		if ss.Cmp(new(big.Int).Rsh(bigN, 1)) > 0 {
+			ss.Sub(bigN, ss)
+		}
+		return encUnc(*Q), digest, rr, ss
+	}
+}
+
+// montPatternValues returns values whose INTERNAL (Montgomery, R = 2^256) form v*R mod m is a structured limb pattern: all low
+// halves zero, a single limb set, only the top bit of a limb, and so on.  Predicates that fold or narrow the limbs (IsZero, Equal,
+// IsOdd, comparisons) are decided on these limbs, not on the value.
+func montPatternValues(r *rand.Rand, m *big.Int) []*big.Int {
+	rinv := new(big.Int).ModInverse(new(big.Int).Mod(big2_256, m), m)
+	var pats [][4]uint64
+	hi := func() uint64 { return (r.Uint64() | 1<<32) &^ 0xffffffff } // low 32 bits zero, not zero
+	pats = append(pats, [4]uint64{hi(), hi(), hi(), hi() >> 1}, [4]uint64{hi(), 0, 0, 0}, [4]uint64{0, 0, 0, hi() >> 1}, [4]uint64{0, hi(), hi(), 0})
+	for k := 0; k < 4; k++ {
+		var one, top, lo32 [4]uint64
+		one[k], top[k], lo32[k] = 1, 1<<63, 0xffffffff
+		if k == 3 {
+			top[k] = 1 << 62
+		}
+		pats = append(pats, one, top, lo32)
+		var allBut [4]uint64
+		for j := range allBut {
+			if j != k {
+				allBut[j] = r.Uint64()
+			}
+		}
+		allBut[3] >>= 1
+		pats = append(pats, allBut)
+	}
+	pats = append(pats, [4]uint64{1 << 63, 1 << 63, 1 << 63, 0}, [4]uint64{0x8000000000000000, 0, 0, 0}, [4]uint64{0xffffffff00000000, 0xffffffff00000000, 0xffffffff00000000, 0x7fffffff00000000})
+	var out []*big.Int
+	for _, p := range pats {
+		l := limbsToBig(p)
+		if l.Cmp(m) >= 0 || l.Sign() == 0 {
+			continue
+		}
+		out = append(out, new(big.Int).Mod(new(big.Int).Mul(l, rinv), m))
+	}
+	return out
+}
+
+// bigSchnorr returns an x-only public key, a message and a valid BIP-340 signature computed with math/big and crypto/sha256 only.
+func bigSchnorr(r *rand.Rand) (pk, msg, sig []byte) {
+	for {
+		d := add(randBig(r, add(bigN, -1)), 1)
+		P := bigECMul(d, &xy{bigGx, bigGy})
+		if P.y.Bit(0) == 1 {
+			d = new(big.Int).Sub(bigN, d)
+		}
+		k := add(randBig(r, add(bigN, -1)), 1)
+		R := bigECMul(k, &xy{bigGx, bigGy})
+		if R.y.Bit(0) == 1 {
+			k = new(big.Int).Sub(bigN, k)
+		}
+		msg = randBytes(r, 32)
+		pk = be32(P.x)[:]
+		rx := be32(R.x)[:]
+		e := new(big.Int).Mod(new(big.Int).SetBytes(taggedHash("BIP0340/challenge", rx, pk, msg)), bigN)
+		s := new(big.Int).Mod(new(big.Int).Add(k, new(big.Int).Mul(e, d)), bigN)
+		return pk, msg, append(append([]byte{}, rx...), be32(s)[:]...)
+	}
+}
+
+// nearCurvePoints returns off-curve points aimed at the comparison the curve check makes: y^2 and x^3 + 7 agree in every 64-bit
+// limb of their internal (Montgomery, R = 2^256) form but ONE, in one bit.
+func nearCurvePoints(r *rand.Rand, perLimb int) []xy {
+	rinv := new(big.Int).ModInverse(new(big.Int).Mod(big2_256, bigP), bigP)
+	var out []xy
+	for limb := uint(0); limb < 4; limb++ {
+		found := 0
+		for tries := 0; tries < 400 && found < perLimb; tries++ {
+			x := randBig(r, bigP)
+			tm := new(big.Int).Mod(new(big.Int).Mul(yyOf(x), big2_256), bigP)
+			tm2 := new(big.Int).Xor(tm, pow2(64*limb+uint(r.Intn(64))))
+			if tm2.Cmp(bigP) >= 0 {
+				continue
+			}
+			y := sqrtP(new(big.Int).Mod(new(big.Int).Mul(tm2, rinv), bigP))
+			if y == nil {
+				continue
+			}
+			found++
+			out = append(out, xy{x, y})
+		}
+	}
+	return out
+}
